@@ -141,6 +141,7 @@ func (pc *ProviderCache) List() []*model.ProviderInfo {
 			m[pid] = rpi.provider
 		}
 	}
+	verifhook.Point("pcache.read", "list")
 	for pid, rpi := range read.u {
 		if rpi != nil {
 			m[pid] = rpi.provider
